@@ -732,3 +732,88 @@ func TestC07LateAnswers(t *testing.T) {
 			rep.Floor("late_answers", 10, int64(asInt(rep.Extra["runs_with_one_late_answer"])))
 		})
 }
+
+// TestC07ManyRetained: a subscription that matches more retained topics than the publish writer's queue holds, made while
+// the writer is held up by another session's slow connection (one late answer of the environment: a broker-to-client write
+// that takes 0.3 / 1.5 / 2.6 s). Every retained message is owed to the new subscriber, however long the writer was busy.
+func TestC07ManyRetained(t *testing.T) {
+	type mp struct {
+		Topics  int `json:"retained_topics"`
+		DelayMs int `json:"other_sessions_write_takes_ms"`
+	}
+	var paths []mp
+	for _, n := range []int{10, 26, 40} {
+		for _, d := range []int{0, 300, 1500, 2600} {
+			paths = append(paths, mp{n, d})
+		}
+	}
+	RunPaths(t, "C07", "C07/many-retained-while-writer-busy", "TestC07ManyRetained", len(paths), vk.Pick(5*time.Minute, 15*time.Minute),
+		func(t *testing.T, i int, rep *vk.Report) {
+			p := paths[i]
+			RunBubble(t, fmt.Sprintf("p%d", i), func(t *testing.T) {
+				w := NewWorld(t, 1)
+				defer w.Close()
+				viol := func(sig, format string, a ...any) {
+					rep.Violate(vk.Violation{Sig: sig, Msg: fmt.Sprintf("%+v: ", p) + fmt.Sprintf(format, a...), Replay: p})
+				}
+				pub := w.NewClient("pub", 1, AckAll)
+				pub.Connect(ConnectOpts{ClientID: "pub", KeepAlive: 600})
+				slow := w.NewClient("slow", 1, AckAll)
+				slow.Connect(ConnectOpts{ClientID: "slow", KeepAlive: 600})
+				slow.Subscribe(1, 0, "live/#")
+				w.Step()
+				for k := 0; k < p.Topics; k++ {
+					pub.Publish(fmt.Sprintf("r/%d", k), fmt.Sprintf("v%d", k), 0, true, 0)
+					w.Step()
+				}
+				late := w.NewClient("late", 1, AckAll)
+				late.Connect(ConnectOpts{ClientID: "late", KeepAlive: 600})
+				w.Step()
+				if p.DelayMs > 0 {
+					slow.SlowNextBrokerWrite(time.Duration(p.DelayMs) * time.Millisecond)
+					pub.Publish("live/x", "now", 0, false, 0)
+					// the log consumer polls: advance in steps of 10 ms until the live message has reached the slow session, i.e. the
+					// writer has just entered the slow write
+					for k := 0; k < 300 && len(slow.Publishes()) == 0; k++ {
+						synctest.Wait()
+						time.Sleep(10 * time.Millisecond)
+					}
+					synctest.Wait()
+					if len(slow.Publishes()) == 0 {
+						rep.HarnessError("the slow session never received the live message: the writer was not held")
+						return
+					}
+				}
+				late.Subscribe(5, 0, "r/#")
+				w.Idle(10 * time.Second)
+				got := map[string]int{}
+				for _, pk := range late.Publishes() {
+					got[string(pk.Topic)+"="+string(pk.Payload)]++
+				}
+				var missing []string
+				for k := 0; k < p.Topics; k++ {
+					key := fmt.Sprintf("r/%d=v%d", k, k)
+					if got[key] == 0 {
+						missing = append(missing, key)
+					}
+					if got[key] > 1 {
+						viol("c07-replayed-twice:many", "retained message %s was replayed %d times to one new subscription", key, got[key])
+						return
+					}
+				}
+				if len(missing) > 0 {
+					viol("c07-replay-missing:many", "the new subscriber of r/# received %d of the %d retained messages within 10 s (the publish writer was held by another session's write for %d ms); missing %v", p.Topics-len(missing), p.Topics, p.DelayMs, missing)
+					return
+				}
+				Observe(w, rep)
+				MarkNontrivial(fmt.Sprint(p))
+				rep.Nontrivial++
+				rep.Sample(p)
+			})
+		},
+		func(i int) any { return paths[i] },
+		func(rep *vk.Report) {
+			rep.Rule = "10 / 26 / 40 retained topics (the writer's queue holds 25 messages) and a new subscription matching all of them, made while the publish writer is inside a write to another session that takes 0 / 0.3 / 1.5 / 2.6 s: the new subscriber receives every retained message exactly once"
+			rep.Floor("paths", int64(len(paths)), rep.Nontrivial)
+		})
+}
